@@ -306,9 +306,11 @@ class Spline final {
    */
   Spline<T, order> &operator*=(const T &d) {
     DURING_TEST_CHECK_VALIDITY();
+    // Copy the scalar: d may refer to one of this spline's own coefficients.
+    const T factor = d;
     for (auto &cs : _coefficients) {
       for (auto &c : cs) {
-        c *= d;
+        c *= factor;
       }
     }
     return *this;
